@@ -1093,11 +1093,21 @@ package fs
 //@   ensures err == nil ==> e != nil && fresh(e) && wfEnc(e) && e.privateFile == f && e.clearRegions == clearRegions && e.offset == 0 && fpos[f] == 0
 //@   ensures err != nil ==> e == nil
 //@   ensures[C13] fopen == old(fopen)
-//@   loop 1 invariant i <= len(unencryptedRegions) && len(encryptedRegions) >= hdr.Count - 1 && len(encryptedRegions) <= hdr.Count - 1 + i && prevRegionEnd <= 0x7fffffff @shape
+//@   ensures[C10] err == nil ==> len(e.encryptedRegions) == 2 * (tblCount(fcontent[f]) - 1) && tblCount(fcontent[f]) >= 2 @one-region-per-gap-after-the-blank-ones
+//@   ensures[C10] err == nil ==> forall k {at(e.encryptedRegions, k).start} {at(e.encryptedRegions, k).end} :: base(e.encryptedRegions) <= k && k < base(e.encryptedRegions) + tblCount(fcontent[f]) - 1 ==> at(e.encryptedRegions, k).start == 0 && at(e.encryptedRegions, k).end == 0 @blank-regions-cover-nothing
+//@   ensures[C10] err == nil ==> forall k {at(e.encryptedRegions, k).start} {at(e.encryptedRegions, k).end} :: base(e.encryptedRegions) + tblCount(fcontent[f]) - 1 <= k && k < end(e.encryptedRegions) ==> at(e.encryptedRegions, k).start == tblEnd(fcontent[f], k - base(e.encryptedRegions) - (tblCount(fcontent[f]) - 1)) && at(e.encryptedRegions, k).end == tblStart(fcontent[f], k - base(e.encryptedRegions) - (tblCount(fcontent[f]) - 1) + 1) @encrypted-regions-are-the-gaps-between-consecutive-plain-regions-of-the-table
+//@   loop 1 invariant i <= len(unencryptedRegions) && len(encryptedRegions) == hdr.Count - 1 + (i > 0 ? i - 1 : 0) && prevRegionEnd <= 0x7fffffff && hdr.Count == tblCount(fcontent[f]) && len(unencryptedRegions) == hdr.Count @shape
+//@   loop 1 invariant forall k {at(unencryptedRegions, k).Start} {at(unencryptedRegions, k).End} :: base(unencryptedRegions) <= k && k < end(unencryptedRegions) ==> at(unencryptedRegions, k).Start == tblStart(fcontent[f], k - base(unencryptedRegions)) && at(unencryptedRegions, k).End == tblEnd(fcontent[f], k - base(unencryptedRegions)) @table-as-read
+//@   loop 1 invariant forall k {at(encryptedRegions, k).start} {at(encryptedRegions, k).end} :: base(encryptedRegions) <= k && k < base(encryptedRegions) + hdr.Count - 1 ==> at(encryptedRegions, k).start == 0 && at(encryptedRegions, k).end == 0 @blank
+//@   loop 1 invariant forall k {at(encryptedRegions, k).start} {at(encryptedRegions, k).end} :: base(encryptedRegions) + hdr.Count - 1 <= k && k < end(encryptedRegions) ==> at(encryptedRegions, k).start == tblEnd(fcontent[f], k - base(encryptedRegions) - (hdr.Count - 1)) && at(encryptedRegions, k).end == tblStart(fcontent[f], k - base(encryptedRegions) - (hdr.Count - 1) + 1) @gaps-so-far
 //@   loop 1 invariant i > 0 ==> prevRegionEnd == at(unencryptedRegions, base(unencryptedRegions) + i - 1).End @prev
 //@   loop 1 invariant forall y {at(encryptedRegions, y).start} {at(encryptedRegions, y).end} :: base(encryptedRegions) <= y && y < end(encryptedRegions) ==> 0 <= at(encryptedRegions, y).start && at(encryptedRegions, y).start <= at(encryptedRegions, y).end @regions-wf
 //@   loop 1 invariant iofaults >= old(iofaults) && fopen == old(fopen)
 
+// the region table at the start of an encrypted image: big-endian count, pad, then (start, end) sector pairs of the PLAIN regions
+//@ spec tblCount(c []int) int = be32(c, 0)
+//@ spec tblStart(c []int, k int) int = be32(c, 8 + 8 * k)
+//@ spec tblEnd(c []int, k int) int = be32(c, 12 + 8 * k)
 //@ pred encSynced(e *EncryptedISO) := wfEnc(e) && e.offset == fpos[e.privateFile] && e.offset >= 0 && e.iv.$arr != e.encryptedRegions.$arr
 
 //@ func EncryptedISO.ReadAt results(n, err)
